@@ -361,8 +361,10 @@ Definition restart (s0 : nstate) (keep : N) : outcome nstate :=
   let s1 := set_flushed (set_log s0 (st_logprev s0) (firstn (N.to_nat (keep - st_logprev s0)) (st_log s0))
                                  (st_lastidx s0) (st_lastterm s0)) keep in
   (* openStorage: a log that ends before the latest snapshot (crash between publishing an
-     installed snapshot and resetting the log) is a stale prefix: reset to the snapshot *)
-  let s := if log_lastindex s1 <? st_snapidx s1 then clear_log s1 else s1 in
+     installed snapshot and resetting the log) is a stale prefix, and a log that starts after it
+     (crash inside Log.Reset, which removes the oldest segments first) no longer connects to it:
+     reset to the snapshot *)
+  let s := if (log_lastindex s1 <? st_snapidx s1) || (st_snapidx s1 <? st_logprev s1) then clear_log s1 else s1 in
   let last := match rev (st_log s) with
               | e :: _ => (e_index e, e_term e)
               | [] => (st_snapidx s, st_snapterm s)
